@@ -228,6 +228,15 @@ protected:
      */
    MUSCLE_NODISCARD virtual bool AreOutgoingMessagesIndependent() const {return false;}
 
+   /**
+     * Should return true iff the buffers returned by FlattenHeaderAndMessage() depend only on the Message
+     * that was passed in (and our encoding), and not on any other state of this gateway.  Only then is
+     * it safe for this gateway to share its flattened buffers with other gateways, as requested by
+     * OptimizeMessageForTransmissionToMultipleGateways().  The default method returns true unless
+     * our outgoing Messages are being deflated as one continuous zlib stream.
+     */
+   MUSCLE_NODISCARD virtual bool AreFlattenedBuffersShareable() const {return ((_outgoingEncoding == MUSCLE_MESSAGE_ENCODING_DEFAULT)||(AreOutgoingMessagesIndependent()));}
+
 #ifdef MUSCLE_ENABLE_ZLIB_ENCODING
    /** Convenience method for subclasses:   Returns the ZLibCodec to use for deflating outgoing data,
      * or NULL if no ZLibCodec should be used for outgoing data.
